@@ -78,11 +78,16 @@ Inductive wkind :=
               before: the triggers, update_keys(), then this and children of the field again) *)
 
 (** The triggers notified when the guard is dropped, in order.
-    Root: the inner guard (ArcStore::writer = WriteGuard(children)) is dropped first, then
-    Notify for ArcStore notifies this and children. *)
+    Root: like every other field, WriteGuard(triggers_for_current_path, untracked raw writer),
+    i.e. children, children, this of the root path.  (Before the repair of F-C16-m the raw
+    writer stayed tracked -- children -- and the guard notified this and children through Notify
+    for ArcStore: [notified_root_prefix]; `untrack()` of that guard left the raw writer's
+    notification in place.) *)
+Definition notified_root_prefix : list trig := [Children []; This []; Children []].
+
 Definition notified (k : wkind) (p : path) : list trig :=
   match k with
-  | WRoot => [Children []; This []; Children []]
+  | WRoot => triggers_for_path []
   | WField => triggers_for_path p
   | WKeyed => triggers_for_path p
   end.
